@@ -62,6 +62,16 @@ CLAIMS = {
    note=NOTE_COMMON + "Model-taking callees are ghost values (pure functions of the const model: C19); iostream/boost::format text formatting to the printed precision and SLHAea "
         "containers are assumed (SLHAea::Coll by an ordered-list contract); echo of input blocks is SLHAea's write_to_stream (external, not claimed).",
    technique="output-effect traces by symbolic execution of the extracted writers + z3; ghost-valued callee contracts", design='5 C15'),
+ 'C17': dict(
+   text="Contracts on all 137 extern \"C\" functions: nothrow by exception-effect inference over the extracted bodies (callee throw contracts inferred bottom-up, try/catch filtering, "
+        "logging macros that stream a model included); every calculation wrapper returns exactly its C++ counterpart on the same model with the extra arguments in order; "
+        "each MSSM C setter followed by the matching getter returns the value set and changes no other entry (through the real C++ accessors, all index combinations); the five "
+        "error-code wrappers map exception classes to codes one-to-one; the THDM struct conversions copy every C field to the C++ field of the same name; the string getters "
+        "write only inside [msg, msg+len) for every len including 0 (CBMC, bit-precise unsigned arithmetic).  13 obligations failed on the pinned tree (12 leaking forwarders, "
+        "len==0 wrap-around), every one replayed on the real code, and were repaired by three fix: commits.",
+   note=NOTE_COMMON + "Library calls without a body in the extracted sources are assumed not to throw and allocation failure is ignored (listed in the evidence); 'bit-for-bit' beyond the wrapper body "
+        "is the identity of the callee symbol; call-sequence state (histories) enters through symbolic model objects, not through explored sequences; std::string::copy by its documented contract.",
+   technique="exception-effect inference + symbolic execution of extracted wrappers; CBMC code contracts for the buffer bound", design='5 C17'),
  'C18': dict(
    text="All clauses of C18 are postconditions of the ten real uncertainty functions: floors (2.3e-10 / 2e-12), non-negativity, finiteness, "
         "1L = |a2L| + delta2L, 0L = documented sum are proved in IEEE-754 arithmetic by CBMC code contracts for all doubles satisfying the stated "
